@@ -37,13 +37,13 @@ Proof.
   { apply Hg. apply Qc_div_pos; qclra. }
   set (qa := Qc_of_Z a).
   assert (Hqa : 1 + 1 <= qa).
-  { subst qa. replace (1 + 1) with (Qc_of_Z 2) by (apply Qc_is_canon; reflexivity). now apply qz_le. }
+  { subst qa. replace (1 + 1) with (Qc_of_Z 2) by (apply Qc_is_canon; reflexivity). apply (proj1 (qz_le 2 a)). exact Ha. }
   set (v1 := gamma * qa / (1 + gamma)). set (v2 := qa / (1 + gamma)).
   assert (H1g : 0 < 1 + gamma) by qclra.
   assert (Hv1 : 0 < v1) by (apply Qc_div_pos; [|exact H1g]; qcnra).
   assert (Hv2 : 0 < v2) by (apply Qc_div_pos; [|exact H1g]; qclra).
   assert (H12 : v1 + v2 = qa).
-  { subst v1 v2. field. intro E. rewrite E in H1g. exact (Qclt_not_eq _ _ H1g eq_refl). }
+  { subst v1 v2. field. change (1 + gamma <> 0). intro E. clear - E Hgam. qclra. }
   destruct (clip_sum v1 v2 qa Hv1 Hv2 H12 Hqa) as (Hc1 & Hc2 & Hsum).
   unfold clip_trunc. fold qa.
   set (c1 := Qc_min (Qc_max v1 1) qa) in *. set (c2 := Qc_min (Qc_max v2 1) qa) in *.
@@ -94,8 +94,9 @@ Proof.
   split.
   - unfold adaptive_ok. cbn [length]. rewrite !app_length, !map_length, zrange_length. cbn [length].
     split; [lia|]. split; [lia|].
-    intros K HK. destruct (Hnth K HK) as (H1 & H2 & H3). split; [exact H1|]. split; [exact H2|lia].
-  - intros K HK. now destruct (Hnth K HK) as (_ & _ & H3).
+    intros K HK. destruct (Hnth K HK) as (H1 & H2 & H3). split; [exact H1|]. split; [exact H2|].
+    eapply Z.le_trans; [exact H3|exact Han].
+  - intros K HK. destruct (Hnth K HK) as (_ & _ & H3). exact H3.
 Qed.
 
 (** ---------- the adaptive strategies compute the closed forms ---------- *)
